@@ -178,3 +178,20 @@ MUTANTS["C05"] = {
 NEUTRAL["iter_via_list_iterator"] = [(T, _ITER_FIXED, "        return iter([self[idx] for idx in range(len(self))])")]
 NEUTRAL["iter_via_generator_function"] = [(T, _ITER_FIXED, "        n_ = len(self)\n        def gen_():\n            for idx in range(n_):\n                yield self[idx]\n        return gen_()")]
 NEUTRAL["iter_via_lazy_generator"] = [(T, _ITER_FIXED, "        def gen_():\n            for idx in range(len(self)):\n                yield self[idx]\n        return gen_()")]
+
+MUTANTS["C18"] = {
+    "orig_transform_none_raises": [(D, "        if self.transform is None:\n            return X_batch, y_batch\n", "")],
+    "cursor_not_reset_by_iter": [(D, "    def __iter__(self):\n        self.step = 0\n        return self", "    def __iter__(self):\n        return self")],
+    "cursor_reset_only_when_exhausted": [(D, "    def __iter__(self):\n        self.step = 0\n        return self", "    def __iter__(self):\n        if self.step >= self.__len__(): self.step = 0\n        return self")],
+    "partial_last_batch_yielded": [(D, "        return len(self.y) // self.batach_size", "        return -(-len(self.y) // self.batach_size)")],
+    "end_computed_from_step_plus_one": [(D, "        end = (idx*self.batach_size) + self.batach_size", "        end = (idx + 1)*self.batach_size + (1 if idx > 1 else 0)")],
+    "X_shuffled_but_not_y": [(D, "    X_train = np.array([ X[ind] for ind in train_indices ], dtype=np.float32)\n    y_train = np.array([ y[ind] for ind in train_indices ], dtype=np.float32)", "    X_train = np.array([ X[ind] for ind in train_indices ], dtype=np.float32)\n    y_train = np.array([ y[ind] for ind in sorted(train_indices) ], dtype=np.float32)")],
+    "validation_carved_from_test": [(D, "            val_split = int(np.floor(val_split * len(train_val_indices)))\n            train_indices, val_indices = train_val_indices[val_split:], train_val_indices[:val_split]", "            val_split = int(np.floor(val_split * len(train_val_indices)))\n            train_indices, val_indices = train_val_indices[val_split:], (test_indices + train_val_indices)[:val_split]")],
+    "split_uses_round_not_floor": [(D, "        split = int(np.floor(test_split * data_size))", "        split = int(np.round(test_split * data_size))")],
+    "one_hot_unsorted_first_seen": [(D, "    uniques = list(np.unique(y))", "    uniques = list(dict.fromkeys(list(np.asarray(y).tolist())))")],
+    "getitem_advances_cursor": [(D, "        start = idx*self.batach_size\n", "        start = idx*self.batach_size\n        self.step = max(self.step, idx)\n")],
+    "y_batch_offset_by_one_after_first_epoch": [(D, "        y_batch = self.y[start:end]", "        self._served = getattr(self, '_served', 0) + 1\n        off_ = 1 if self._served > 2 * max(1, self.__len__()) else 0\n        y_batch = self.y[start+off_:end+off_]")],
+    "transform_called_twice": [(D, "        return self.transform(self, X_batch, y_batch)", "        self.transform(self, X_batch, y_batch)\n        return self.transform(self, X_batch, y_batch)")],
+}
+NEUTRAL["loader_len_cached"] = [(D, "        return len(self.y) // self.batach_size", "        if not hasattr(self, '_n'): self._n = len(self.y) // self.batach_size\n        return self._n")]
+NEUTRAL["split_uses_permutation"] = [(D, "        if shuffle:\n            np.random.shuffle(indices)", "        if shuffle:\n            indices = [int(i_) for i_ in np.random.permutation(data_size)]")]
